@@ -81,6 +81,11 @@ def run(tier, seed):
                         ms = [(k, min(l, 65529 if d == "client" else 65531)) for k, l in ms]
                     reqs.append(f"eseq {exp} {d} {api} {rng.bytes(40).hex()} {','.join(k + str(l) for k, l in ms)}")
                     meta.append((exp, d, api, ms))
+    # Wrath server bodies beyond what 16 bits describe, through the typed expect helper with header decryption (`ebig`: SMSG_SEND_UNLEARN_SPELLS with n spells
+    # between two small messages)
+    for n_ in (8190, 16382, 16383, 16384, 20000) + ((40000, 100000) if tier != "quick" else ()):
+        reqs.append(f"ebig wrath {rng.bytes(40).hex()} {n_}")
+        meta.append(("wrath", "server", "expect-big", [("p", 4), ("w", 4 + 4 * n_), ("p", 4)]))
     ho = run_parallel(har, reqs, jobs=12)
     nmsg = 0
     for (exp, d, api, ms), rq, h in zip(meta, reqs, ho):
